@@ -177,6 +177,195 @@ theorem member_serialized (id source ty : Bytes) (data : Option J) (ct schema : 
 
 end Evl.CloudEvents
 
+/-! ## rendered documents are byte strings -/
+
+namespace Evl.Json
+
+def bytesOK (l : Bytes) : Prop := ∀ b ∈ l, b < 256
+
+theorem bytesOK_nil : bytesOK [] := by intro b hb; simp at hb
+theorem bytesOK_append {a b : Bytes} : bytesOK (a ++ b) ↔ bytesOK a ∧ bytesOK b := by
+  unfold bytesOK; simp only [List.mem_append]
+  constructor
+  · intro h; exact ⟨fun x hx => h x (Or.inl hx), fun x hx => h x (Or.inr hx)⟩
+  · intro ⟨h1, h2⟩ x hx; rcases hx with hx | hx; exact h1 x hx; exact h2 x hx
+theorem bytesOK_cons {a : Nat} {b : Bytes} : bytesOK (a :: b) ↔ a < 256 ∧ bytesOK b := by
+  unfold bytesOK; simp only [List.mem_cons]
+  constructor
+  · intro h; exact ⟨h a (Or.inl rfl), fun x hx => h x (Or.inr hx)⟩
+  · intro ⟨h1, h2⟩ x hx; rcases hx with hx | hx; rw [hx]; exact h1; exact h2 x hx
+
+theorem hexDigit_lt (n : Nat) (h : n < 16) : hexDigit n < 256 := by unfold hexDigit; split <;> omega
+
+theorem escAscii_ok (b : Nat) (hb : b < 256) : bytesOK (escAscii b) := by
+  unfold escAscii
+  have h1 := hexDigit_lt (b / 16) (by omega)
+  have h2 := hexDigit_lt (b % 16) (Nat.mod_lt _ (by decide))
+  repeat' split
+  all_goals (intro x hx; simp only [u00, List.mem_cons, List.mem_nil_iff, or_false] at hx; omega)
+
+theorem bytesOK_take {l : Bytes} (n : Nat) (h : bytesOK l) : bytesOK (l.take n) :=
+  fun b hb => h b (List.mem_of_mem_take hb)
+theorem bytesOK_drop {l : Bytes} (n : Nat) (h : bytesOK l) : bytesOK (l.drop n) :=
+  fun b hb => h b (List.mem_of_mem_drop hb)
+
+theorem escSeq_ok (s : Bytes) (h : bytesOK s) : bytesOK (escSeq s) := by
+  unfold escSeq
+  split
+  · intro x hx; simp only [List.mem_cons, List.mem_nil_iff, or_false] at hx; omega
+  · split
+    · intro x hx; simp only [List.mem_cons, List.mem_nil_iff, or_false] at hx; omega
+    · exact h
+
+theorem escBytes_ok : ∀ (n : Nat) (s : Bytes), s.length ≤ n → bytesOK s → bytesOK (escBytes s) := by
+  intro n
+  induction n with
+  | zero =>
+    intro s hs _
+    have : s = [] := by cases s <;> simp_all
+    subst this; rw [escBytes]; exact bytesOK_nil
+  | succ n ih =>
+    intro s hs hok
+    cases s with
+    | nil => rw [escBytes]; exact bytesOK_nil
+    | cons b tl =>
+      rw [escBytes]
+      have hb := (bytesOK_cons.mp hok).1
+      have htl := (bytesOK_cons.mp hok).2
+      simp only [List.length_cons] at hs
+      by_cases h80 : b < 0x80
+      · simp only [h80, if_true]
+        exact bytesOK_append.mpr ⟨escAscii_ok b hb, ih tl (by omega) htl⟩
+      · simp only [h80, if_false]
+        by_cases hz : (utf8Len (b :: tl) == 0) = true
+        · simp only [hz, if_true]
+          refine bytesOK_append.mpr ⟨?_, ih tl (by omega) htl⟩
+          intro x hx; simp only [List.mem_cons, List.mem_nil_iff, or_false] at hx; omega
+        · simp only [hz, if_false, Bool.false_eq_true]
+          exact bytesOK_append.mpr ⟨escSeq_ok _ (bytesOK_take _ hok), ih _ (by simp only [List.length_drop]; omega) (bytesOK_drop _ htl)⟩
+
+theorem quote_ok (s : Bytes) (h : bytesOK s) : bytesOK (quote s) := by
+  unfold quote
+  refine bytesOK_append.mpr ⟨bytesOK_append.mpr ⟨?_, escBytes_ok _ s (Nat.le_refl _) h⟩, ?_⟩
+  · intro x hx; simp at hx; omega
+  · intro x hx; simp at hx; omega
+
+/-- the byte strings inside a token -/
+def tokOK : Tok → Prop
+  | .num t => bytesOK t
+  | .str s => bytesOK s
+  | .key s => bytesOK s
+  | _ => True
+
+theorem sep_ok (st : Stack) (ak : Bool) : bytesOK (sep st ak).1 := by
+  unfold sep
+  split
+  · exact bytesOK_nil
+  · split
+    · exact bytesOK_nil
+    · intro x hx; simp at hx; omega
+    · exact bytesOK_nil
+
+theorem renderToks_ok : ∀ (ts : List Tok) (st : Stack) (ak : Bool) (out : Bytes),
+    (∀ t ∈ ts, tokOK t) → renderToks ts st ak = some out → bytesOK out := by
+  intro ts
+  induction ts with
+  | nil => intro st ak out _ h; simp [renderToks] at h; subst h; exact bytesOK_nil
+  | cons t ts ih =>
+    intro st ak out hts h
+    have ht := hts t (by simp)
+    have hrest : ∀ t' ∈ ts, tokOK t' := fun t' h' => hts t' (by simp [h'])
+    have lit : ∀ (l : Bytes), (∀ x ∈ l, x < 256) → bytesOK l := fun l h => h
+    cases t with
+    | unsupported => simp [renderToks] at h
+    | null =>
+      simp only [renderToks] at h
+      cases hr : renderToks ts (sep st ak).2 false with
+      | none => simp [hr] at h
+      | some r =>
+        simp only [hr, Option.map_some, Option.some.injEq] at h; subst h
+        exact bytesOK_append.mpr ⟨bytesOK_append.mpr ⟨sep_ok st ak, lit _ (by decide)⟩, ih _ _ _ hrest hr⟩
+    | bool b =>
+      cases b <;>
+      · simp only [renderToks] at h
+        cases hr : renderToks ts (sep st ak).2 false with
+        | none => simp [hr] at h
+        | some r =>
+          simp only [hr, Option.map_some, Option.some.injEq] at h; subst h
+          exact bytesOK_append.mpr ⟨bytesOK_append.mpr ⟨sep_ok st ak, lit _ (by decide)⟩, ih _ _ _ hrest hr⟩
+    | num tk =>
+      simp only [renderToks] at h
+      cases hr : renderToks ts (sep st ak).2 false with
+      | none => simp [hr] at h
+      | some r =>
+        simp only [hr, Option.map_some, Option.some.injEq] at h; subst h
+        exact bytesOK_append.mpr ⟨bytesOK_append.mpr ⟨sep_ok st ak, ht⟩, ih _ _ _ hrest hr⟩
+    | str s =>
+      simp only [renderToks] at h
+      cases hr : renderToks ts (sep st ak).2 false with
+      | none => simp [hr] at h
+      | some r =>
+        simp only [hr, Option.map_some, Option.some.injEq] at h; subst h
+        exact bytesOK_append.mpr ⟨bytesOK_append.mpr ⟨sep_ok st ak, quote_ok s ht⟩, ih _ _ _ hrest hr⟩
+    | key s =>
+      simp only [renderToks] at h
+      cases hr : renderToks ts (sep st false).2 true with
+      | none => simp [hr] at h
+      | some r =>
+        simp only [hr, Option.map_some, Option.some.injEq] at h; subst h
+        exact bytesOK_append.mpr ⟨bytesOK_append.mpr ⟨bytesOK_append.mpr ⟨sep_ok st false, quote_ok s ht⟩, lit _ (by decide)⟩, ih _ _ _ hrest hr⟩
+    | beginObj =>
+      simp only [renderToks] at h
+      cases hr : renderToks ts (false :: (sep st ak).2) false with
+      | none => simp [hr] at h
+      | some r =>
+        simp only [hr, Option.map_some, Option.some.injEq] at h; subst h
+        exact bytesOK_append.mpr ⟨bytesOK_append.mpr ⟨sep_ok st ak, lit _ (by decide)⟩, ih _ _ _ hrest hr⟩
+    | beginArr =>
+      simp only [renderToks] at h
+      cases hr : renderToks ts (false :: (sep st ak).2) false with
+      | none => simp [hr] at h
+      | some r =>
+        simp only [hr, Option.map_some, Option.some.injEq] at h; subst h
+        exact bytesOK_append.mpr ⟨bytesOK_append.mpr ⟨sep_ok st ak, lit _ (by decide)⟩, ih _ _ _ hrest hr⟩
+    | endObj =>
+      simp only [renderToks] at h
+      cases hr : renderToks ts st.tail false with
+      | none => simp [hr] at h
+      | some r =>
+        simp only [hr, Option.map_some, Option.some.injEq] at h; subst h
+        exact bytesOK_append.mpr ⟨lit _ (by decide), ih _ _ _ hrest hr⟩
+    | endArr =>
+      simp only [renderToks] at h
+      cases hr : renderToks ts st.tail false with
+      | none => simp [hr] at h
+      | some r =>
+        simp only [hr, Option.map_some, Option.some.injEq] at h; subst h
+        exact bytesOK_append.mpr ⟨lit _ (by decide), ih _ _ _ hrest hr⟩
+
+end Evl.Json
+
+namespace Evl.Json
+
+def allOK : List Tok → Prop
+  | [] => True
+  | t :: ts => tokOK t ∧ allOK ts
+
+theorem allOK_append (a b : List Tok) : allOK (a ++ b) ↔ allOK a ∧ allOK b := by
+  induction a with
+  | nil => simp [allOK]
+  | cons t ts ih => simp [allOK, ih, and_assoc]
+
+theorem allOK_mem : ∀ (ts : List Tok), allOK ts → ∀ t ∈ ts, tokOK t
+  | [], _, t, ht => by simp at ht
+  | t0 :: ts, h, t, ht => by
+    simp only [List.mem_cons] at ht
+    rcases ht with rfl | ht
+    · exact h.1
+    · exact allOK_mem ts h.2 t ht
+
+end Evl.Json
+
 namespace Evl.C18
 open Evl.CloudEvents Evl.Json
 
@@ -239,5 +428,58 @@ example : verify (fun _ => some [115]) ([123, 34] ++ kSerialized ++ [34, 58, 34,
 example : verify (fun _ => some [115]) ([123, 34] ++ kSerialized ++ [34, 58, 34, 65, 65, 34, 44, 34] ++ kSerializedHmac ++ [34, 58, 34, 115, 34, 125, 10]) = .verified := by
   decide
 example : verify (fun _ => some [115]) [123, 125, 10] = .notSigned := by decide
+
+/-- the strings the formatter is given are byte strings (every element below 256): trivially true of
+Go strings and `[]byte`; the model's bytes are natural numbers -/
+structure InputsOK (c : Cfg) (e : Ev) : Prop where
+  id : bytesOK (idOf e)
+  source : bytesOK (c.source.getD [])
+  schema : bytesOK (c.schema.getD [])
+  ty : bytesOK e.ty
+  time : bytesOK e.timeTok
+  data : ∀ d, e.data = some d → allOK d
+
+theorem unsigned_bytes (c : Cfg) (e : Ev) (hfmt : (c.format == .text) = false) (hi : InputsOK c e)
+    (u : Bytes) (hu : unsignedDoc c e = some u) : bytesOK u := by
+  unfold unsignedDoc encode at hu
+  simp only [hfmt, Bool.false_eq_true, if_false] at hu
+  cases hr : render (docToks (idOf e) (c.source.getD []) e.ty e.data ctJSON (c.schema.getD []) e.timeTok none) with
+  | none => simp [hr] at hu
+  | some r =>
+    simp only [hr, Option.map_some, Option.some.injEq] at hu
+    subst hu
+    refine bytesOK_append.mpr ⟨renderToks_ok _ _ _ _ (allOK_mem _ ?_) hr, fun x hx => by simp at hx; omega⟩
+    have k : ∀ (s : String), (∀ b ∈ str s, b < 256) → bytesOK (str s) := fun _ h => h
+    have k1 := k "id" (by decide +kernel)
+    have k2 := k "source" (by decide +kernel)
+    have k3 := k "specversion" (by decide +kernel)
+    have k4 := k "1.0" (by decide +kernel)
+    have k5 := k "type" (by decide +kernel)
+    have k6 := k "data" (by decide +kernel)
+    have k7 := k "datacontentype" (by decide +kernel)
+    have k8 := k "dataschema" (by decide +kernel)
+    have k9 := k "time" (by decide +kernel)
+    have k10 : bytesOK ctJSON := k "application/cloudevents" (by decide +kernel)
+    cases hd : e.data with
+    | none =>
+      cases hs : (c.schema.getD []).isEmpty <;>
+        simp [docToks, hs, allOK, allOK_append, tokOK, k1, k2, k3, k4, k5, k7, k8, k9, k10, hi.id, hi.source, hi.schema, hi.ty, hi.time]
+    | some d =>
+      have hdd := hi.data d hd
+      cases hs : (c.schema.getD []).isEmpty <;>
+        simp [docToks, hs, allOK, allOK_append, tokOK, k1, k2, k3, k4, k5, k6, k7, k8, k9, k10, hi.id, hi.source, hi.schema, hi.ty, hi.time, hdd]
+
+/-- **A signed cloudevents-json document verifies** — `signed_verifies` with the byte-string premise
+discharged from the inputs. -/
+theorem signed_document_verifies (c : Cfg) (e : Ev) (signer : Bytes → Option Bytes) (p : Evl.CloudEvents.Pred) (f : Nat) (stored : Bytes)
+    (hv : validate c = none) (hid : e.idIface ≠ some []) (hfmt : (c.format == .text) = false) (hi : InputsOK c e)
+    (dv : Option J) (hd : e.data = dv.map toks) (hdw : ∀ d, dv = some d → wf d = true)
+    (tj : J) (ht : e.timeTok = renderJ tj) (htw : wf tj = true)
+    (u : Bytes) (hu : unsignedDoc c e = some u)
+    (hs : c.hasSigner = true) (hl : c.signTypes.contains e.ty = true)
+    (hmac : ∀ mac, signer u = some mac → mac ≠ [] ∧ sanitize mac = mac)
+    (hfw : process c e signer p = .forward f stored) :
+    verify signer stored = .verified :=
+  signed_verifies c e signer p f stored hv hid hfmt dv hd hdw tj ht htw u hu (unsigned_bytes c e hfmt hi u hu) hs hl hmac hfw
 
 end Evl.C18
